@@ -956,6 +956,36 @@ Proof.
   - subst t. rewrite app_nil_r, (roundtrip crc valid crc_len) by assumption. reflexivity.
 Qed.
 
+(* the marker for h-1 >= 1 anywhere in the journal, non-zero markers increasing *)
+Lemma catchup_replay_any : forall s fs hr t tb h pre d post,
+  SInv s fs hr t -> tail_ok tb t -> Idx s -> 2 <= h -> MonoNZ (concat fs ++ hr) ->
+  concat fs ++ hr = pre ++ d :: post -> eh_of d = Some (h - 1) ->
+  ~ In h (markers (concat fs ++ hr)) ->
+  exists s1 fs1, catchup s h = ((if tb then CCorrupt else COk post), s1) /\
+    SInv s1 fs1 hr t /\ concat fs1 = concat fs /\ same_mem s s1 /\ Idx s1.
+Proof.
+  intros s fs hr t tb h pre d post H Htail HI Hh Mono EJ Ed Hnin.
+  unfold Model.catchup.
+  destruct (search s h true) as [r1 s1] eqn:E1.
+  destruct (search_state s fs hr t tb true h r1 s1 H Htail HI E1) as (fs1 & H1 & C1 & M1 & HI1).
+  assert (NT : forall h', ~ torn_first tb true h' hr) by (intros h' (_ & X & _); discriminate).
+  rewrite (search_notfound s fs hr t tb true h r1 s1 H Htail HI E1 (NT h) Hnin).
+  assert (L : (h <? 1) = false) by (apply Z.ltb_ge; lia). rewrite L.
+  destruct (search s1 (h - 1) true) as [r2 s2] eqn:E2.
+  assert (Mono1 : MonoNZ (concat fs1 ++ hr)) by (rewrite C1; exact Mono).
+  destruct (search_spec_mono s1 fs1 hr t tb true (h - 1) r2 s2 H1 Htail HI1 Mono1 E2)
+    as ((fs2 & H2 & C2 & M2 & HI2) & _ & P2 & _).
+  assert (Hin : In (h - 1) (markers (concat fs1 ++ hr))).
+  { rewrite C1, EJ, markers_app, markers_cons, Ed. apply in_or_app. right. left. reflexivity. }
+  destruct (P2 (NT (h - 1)) Hin) as (pre' & d' & post' & E3 & Ed' & -> & ED & EU).
+  assert (H0 : h - 1 <> 0) by lia.
+  destruct (MonoNZ_unique _ pre d post (h - 1) Mono H0 EJ Ed) as [U1 _].
+  destruct (EU H0) as [U2 _].
+  rewrite C1, EJ in E3. destruct (first_unique (h - 1) _ _ _ _ _ _ E3 Ed Ed' U1 U2) as (_ & _ & <-).
+  rewrite ED. exists s2, fs2. split; [destruct tb; reflexivity|].
+  split; [exact H2|]. split; [congruence|]. split; [exact (same_mem_trans _ _ _ M1 M2)|exact HI2].
+Qed.
+
 (* ------------------------------------------------------------------ State.OnStart *)
 Notation restart := (restart crc valid eh_of true).
 Notation repair := (repair crc valid true).
@@ -989,12 +1019,17 @@ Qed.
    exactly the intact records (plus the record that was being written when the cut removed
    nothing but trailing zero bytes of it, x = [r]), nothing is buffered, the backup has the size
    of the damaged head, and the second replay is handed all records behind the marker. *)
-Lemma restart_reaches_repair : forall s keep h d0a d0b fs hr r k pre d post,
+Lemma restart_core : forall s keep h d0a d0b fs hr r k post,
   files s = map frames fs -> Forall okrec (concat fs ++ hr) ->
   okrec r -> (0 < k < length (frame r))%nat ->
   head (crash s keep) = frames hr ++ firstn k (frame r) ->
-  1 <= h -> hr = pre ++ d :: post -> eh_of d = Some (h - 1) -> ~ In (h - 1) (markers pre) ->
-  ~ In h (markers (concat fs ++ hr)) -> eh_of r <> Some h ->
+  hr <> [] ->
+  (* what catchupReplay does on the states met: corruption on a torn tail, else the records
+     behind the marker *)
+  (forall s0 fs0 x tb t, (x = [] \/ x = [r]) -> SInv s0 fs0 (hr ++ x) t ->
+     concat fs0 = concat fs -> tail_ok tb t -> Idx s0 ->
+     exists s1 fs1, catchup s0 h = ((if tb then CCorrupt else COk (post ++ x)), s1) /\
+       SInv s1 fs1 (hr ++ x) t /\ concat fs1 = concat fs0 /\ same_mem s0 s1 /\ Idx s1) ->
   (exists x s', (x = [] \/ x = [r]) /\
      restart s keep h true d0a d0b = (s', (0%N, true, post ++ x)) /\
      head s' = frames (hr ++ x) /\ buf s' = [] /\ synced s' = len (head s') /\
@@ -1002,18 +1037,22 @@ Lemma restart_reaches_repair : forall s keep h d0a d0b fs hr r k pre d post,
      read_all crc valid true s' = (concat fs ++ hr ++ x, TEof))
   \/ CrcCollision crc.
 Proof.
-  intros s keep h d0a d0b fs hr r k pre d post Hf Hok Hr Hk Hhead Hh Ehr Ed Hpre Hnin Hrh.
+  intros s keep h d0a d0b fs hr r k post Hf Hok Hr Hk Hhead Hhrne Hcatch.
+  assert (Hfne : forall x, frames (hr ++ x) <> []).
+  { destruct hr as [|d0 hr']; [congruence|]. intro x. exact (frames_nonempty [] d0 (hr' ++ x)). }
   set (tl := firstn k (frame r)) in *.
   assert (Htail : tail_ok true tl).
   { exists r, k. split; [apply Hr|]. split; [exact Hk|reflexivity]. }
   set (c := crash s keep) in *.
   assert (Sc : SInv c fs hr tl) by (constructor; [exact Hf|exact Hhead|exact Hok]).
   assert (Hne : head c <> []).
-  { rewrite Hhead, Ehr. intro X. apply app_eq_nil in X as [X _]. exact (frames_nonempty _ _ _ X). }
+  { rewrite Hhead. intro X. apply app_eq_nil in X as [X _]. apply (Hfne []). rewrite app_nil_r. exact X. }
   destruct (open_wal_nonempty c d0a fs hr tl Sc Hne) as (S0 & I0 & Hd0 & B0 & _).
   set (s0 := open_wal c d0a) in *.
-  destruct (catchup_replay s0 fs hr tl true h pre d post S0 Htail I0 Hh Ehr Ed Hpre Hnin)
+  assert (S0' : SInv s0 fs (hr ++ []) tl) by (rewrite app_nil_r; exact S0).
+  destruct (Hcatch s0 fs [] true tl (or_introl eq_refl) S0' eq_refl Htail I0)
     as (s1 & fs1 & EC1 & S1 & C1 & M1 & I1).
+  rewrite app_nil_r in S1. change (catchup s0 h = (CCorrupt, s1)) in EC1.
   destruct M1 as (Hd1 & B1 & _).
   set (xf := flush_sync s1).
   assert (Hxf : head xf = frames hr ++ tl).
@@ -1038,17 +1077,11 @@ Proof.
       - rewrite app_nil_r. exact Hy.
       - rewrite C1, app_assoc. apply Forall_app. split; assumption. }
     assert (Hney : head y <> []).
-    { rewrite Hy, Ehr, <- app_assoc. apply frames_nonempty. }
+    { rewrite Hy. apply Hfne. }
     destruct (open_wal_nonempty y d0b fs1 (hr ++ x) [] Sy Hney) as (S2 & I2 & Hd2 & B2 & _ & J2 & Y2).
     set (s2 := open_wal y d0b) in *.
-    assert (Ehr2 : hr ++ x = pre ++ d :: (post ++ x)) by (rewrite Ehr, <- app_assoc; reflexivity).
-    assert (Hnin2 : ~ In h (markers (concat fs1 ++ hr ++ x))).
-    { rewrite C1, app_assoc, markers_app. intro X. apply in_app_or in X as [X|X]; [exact (Hnin X)|].
-      destruct Hx as [->| ->]; [destruct X|].
-      cbn [markers flat_map] in X. destruct (eh_of r) as [m|]; [|destruct X].
-      destruct X as [->|[]]. apply Hrh. reflexivity. }
-    destruct (catchup_replay s2 fs1 (hr ++ x) [] false h pre d (post ++ x) S2 eq_refl I2 Hh
-                Ehr2 Ed Hpre Hnin2) as (s3 & fs3 & EC2 & S3 & C3 & M3 & I3).
+    destruct (Hcatch s2 fs1 x false [] Hx S2 C1 eq_refl I2)
+      as (s3 & fs3 & EC2 & S3 & C3 & M3 & I3).
     destruct M3 as (Hd3 & B3 & Y3 & _ & _ & J3 & _).
     exists s3. split; [|split; [|split; [|split; [|split]]]].
     - unfold Model.restart. fold c. fold s0. cbn [negb]. cbv beta zeta. rewrite EC1.
@@ -1066,6 +1099,70 @@ Proof.
     exists [], s'. split; [left; reflexivity|exact P].
   - destruct (Cont [r] (or_intror eq_refl) R) as (s' & P).
     exists [r], s'. split; [right; reflexivity|exact P].
+Qed.
+
+
+Lemma notin_ext : forall h J r x, ~ In h (markers J) -> eh_of r <> Some h ->
+  x = [] \/ x = [r] -> ~ In h (markers (J ++ x)).
+Proof.
+  intros h J r x Hnin Hrh Hx. rewrite markers_app. intro X.
+  apply in_app_or in X as [X|X]; [exact (Hnin X)|].
+  destruct Hx as [->| ->]; [destruct X|].
+  cbn [markers flat_map] in X. destruct (eh_of r) as [m|]; [|destruct X].
+  destruct X as [->|[]]. apply Hrh. reflexivity.
+Qed.
+
+(* the marker for h-1 in the head: no assumption on the order of the markers *)
+Lemma restart_reaches_repair : forall s keep h d0a d0b fs hr r k pre d post,
+  files s = map frames fs -> Forall okrec (concat fs ++ hr) ->
+  okrec r -> (0 < k < length (frame r))%nat ->
+  head (crash s keep) = frames hr ++ firstn k (frame r) ->
+  1 <= h -> hr = pre ++ d :: post -> eh_of d = Some (h - 1) -> ~ In (h - 1) (markers pre) ->
+  ~ In h (markers (concat fs ++ hr)) -> eh_of r <> Some h ->
+  (exists x s', (x = [] \/ x = [r]) /\
+     restart s keep h true d0a d0b = (s', (0%N, true, post ++ x)) /\
+     head s' = frames (hr ++ x) /\ buf s' = [] /\ synced s' = len (head s') /\
+     junk s' = len (frames hr ++ firstn k (frame r)) /\
+     read_all crc valid true s' = (concat fs ++ hr ++ x, TEof))
+  \/ CrcCollision crc.
+Proof.
+  intros s keep h d0a d0b fs hr r k pre d post Hf Hok Hr Hk Hhead Hh Ehr Ed Hpre Hnin Hrh.
+  apply (restart_core s keep h d0a d0b fs hr r k post Hf Hok Hr Hk Hhead).
+  - rewrite Ehr. destruct pre; discriminate.
+  - intros s0 fs0 x tb t Hx S C Ht I.
+    apply (catchup_replay s0 fs0 (hr ++ x) t tb h pre d (post ++ x) S Ht I Hh).
+    + rewrite Ehr, <- app_assoc. reflexivity.
+    + exact Ed.
+    + exact Hpre.
+    + rewrite C, app_assoc. apply (notin_ext h _ r x Hnin Hrh Hx).
+Qed.
+
+(* the marker for h-1 >= 1 anywhere in the log (e.g. in a rolled file, the head holding only
+   records of height h), non-zero markers increasing *)
+Lemma restart_reaches_repair_any : forall s keep h d0a d0b fs hr r k pre d post,
+  files s = map frames fs -> Forall okrec (concat fs ++ hr) ->
+  okrec r -> (0 < k < length (frame r))%nat ->
+  head (crash s keep) = frames hr ++ firstn k (frame r) ->
+  hr <> [] -> MonoNZ (concat fs ++ hr ++ [r]) ->
+  2 <= h -> concat fs ++ hr = pre ++ d :: post -> eh_of d = Some (h - 1) ->
+  ~ In h (markers (concat fs ++ hr)) -> eh_of r <> Some h ->
+  (exists x s', (x = [] \/ x = [r]) /\
+     restart s keep h true d0a d0b = (s', (0%N, true, post ++ x)) /\
+     head s' = frames (hr ++ x) /\ buf s' = [] /\ synced s' = len (head s') /\
+     junk s' = len (frames hr ++ firstn k (frame r)) /\
+     read_all crc valid true s' = (concat fs ++ hr ++ x, TEof))
+  \/ CrcCollision crc.
+Proof.
+  intros s keep h d0a d0b fs hr r k pre d post Hf Hok Hr Hk Hhead Hne Mono Hh EJ Ed Hnin Hrh.
+  apply (restart_core s keep h d0a d0b fs hr r k post Hf Hok Hr Hk Hhead Hne).
+  intros s0 fs0 x tb t Hx S C Ht I.
+  apply (catchup_replay_any s0 fs0 (hr ++ x) t tb h pre d (post ++ x) S Ht I Hh).
+  - rewrite C. destruct Hx as [->| ->].
+    + rewrite app_nil_r. apply (MonoNZ_prefix _ [r]). rewrite <- app_assoc. exact Mono.
+    + exact Mono.
+  - rewrite C, app_assoc, EJ, <- app_assoc. reflexivity.
+  - exact Ed.
+  - rewrite C, app_assoc. apply (notin_ext h _ r x Hnin Hrh Hx).
 Qed.
 
 (* a crash j bytes into the unsynced record r of a journal state *)
@@ -1107,6 +1204,31 @@ Proof.
   destruct Hok1 as [Hok1 Hr].
   destruct (restart_reaches_repair s (len (frames pre') + Z.of_nat j) h d0a d0b fs (hs ++ pre')
               r j p d post Hf Hok1 Hr Hj Hc Hh Ehr Ed Hp Hnin Hrh)
+    as [(x & s' & Hx & E1 & E2 & E3 & E4 & _ & E6)|C]; [left|right; exact C].
+  exists x, s'. rewrite <- !app_assoc in *. repeat split; assumption.
+Qed.
+
+Lemma restart_reaches_repair_journal_any : forall s fs hs hu pre' r post' j h d0a d0b p d post,
+  Inv s fs hs hu -> hu = pre' ++ r :: post' -> (0 < j < length (frame r))%nat ->
+  hs ++ pre' <> [] -> MonoNZ (concat fs ++ hs ++ pre' ++ [r]) ->
+  2 <= h -> concat fs ++ hs ++ pre' = p ++ d :: post -> eh_of d = Some (h - 1) ->
+  ~ In h (markers (concat fs ++ hs ++ pre')) -> eh_of r <> Some h ->
+  (exists x s', (x = [] \/ x = [r]) /\
+     restart s (len (frames pre') + Z.of_nat j) h true d0a d0b = (s', (0%N, true, post ++ x)) /\
+     head s' = frames (hs ++ pre' ++ x) /\ buf s' = [] /\ synced s' = len (head s') /\
+     read_all crc valid true s' = (concat fs ++ hs ++ pre' ++ x, TEof))
+  \/ CrcCollision crc.
+Proof.
+  intros s fs hs hu pre' r post' j h d0a d0b p d post HInv Ehu Hj Hne Mono Hh EJ Ed Hnin Hrh.
+  pose proof (crash_in_frame s fs hs hu pre' r post' j HInv Ehu Hj) as Hc.
+  destruct HInv as [Hf Hhd Hs Hok].
+  assert (Hok1 : Forall okrec (concat fs ++ hs ++ pre') /\ okrec r).
+  { rewrite Ehu in Hok. rewrite !app_assoc in Hok. apply Forall_app in Hok as [Hok1 Hok2].
+    rewrite <- !app_assoc in Hok1. split; [exact Hok1|]. inversion Hok2; assumption. }
+  destruct Hok1 as [Hok1 Hr].
+  assert (Mono' : MonoNZ (concat fs ++ (hs ++ pre') ++ [r])) by (rewrite <- !app_assoc; exact Mono).
+  destruct (restart_reaches_repair_any s (len (frames pre') + Z.of_nat j) h d0a d0b fs (hs ++ pre')
+              r j p d post Hf Hok1 Hr Hj Hc Hne Mono' Hh EJ Ed Hnin Hrh)
     as [(x & s' & Hx & E1 & E2 & E3 & E4 & _ & E6)|C]; [left|right; exact C].
   exists x, s'. rewrite <- !app_assoc in *. repeat split; assumption.
 Qed.
